@@ -221,9 +221,12 @@ def predicate(ops, out):
         line = canon_line(op, raw)
         m = CENSUS.search(raw)
         if m and m.group(6) != "-":
-            return f"`{op}`: {m.group(6)} — {_stuck_msg(m.group(6))}"
+            return f"{_stuck_msg(m.group(6))} — after `{op}`: {m.group(6)}"
         if "HANG" in line.split():
-            return f"`{op}`: the broker did not become quiescent within {QT} ms — {_stuck_msg(raw)}"
+            # which goroutine it is shows in the next census of the script
+            later = next((mm.group(6) for mm in (CENSUS.search(x) for x in out[out.index(raw):]) if mm and mm.group(6) != "-"), raw)
+            return f"{_stuck_msg(later)} — after `{op}` the broker did not become quiescent within {QT} ms" + \
+                   (f" ({later})" if later is not raw else "")
         evs = {}
         for t in line.split():
             if EV.match(t):
@@ -235,8 +238,10 @@ def predicate(ops, out):
             ref.feed(pos[0], [f"C:{pos[1]}:{kv.get('v', '4')}"])
             want = "connack_ok" if ref.st[pos[0]] == "reg" else "connack_err"
             if want not in evs.get(pos[0], []):
-                return (f"`{op}`: no {'CONNACK' if want == 'connack_ok' else 'refusing CONNACK'} — the CONNECT was not answered"
-                        + (" (an older connection with this client id never finished closing) [F37]" if want == "connack_ok" else ""))
+                if want == "connack_ok":
+                    return ("[F37/F47] a CONNECT was not answered: the older connection with this client id never finished closing "
+                            f"(lockDuplicatedID waits on <-oldClient.closed / inside oldClient.setError) — `{op}`")
+                return f"a refused CONNECT got no CONNACK — `{op}`"
         elif f[0] == "rawconn":
             ref.st[pos[0]], ref.reader[pos[0]] = "raw", kv.get("noread", "0") != "1"
         elif f[0] == "burst":
@@ -258,30 +263,31 @@ def predicate(ops, out):
         elif f[0] == "counts":
             on = int(dict(x.split("=", 1) for x in raw.split() if "=" in x)["online"])
             if on != ref.registered():
-                return (f"`{op}`: {on} clients registered, {ref.registered()} connections are still attached — a client whose "
-                        "connection has ended is still in srv.clients [F37]" if on > ref.registered() else
-                        f"`{op}`: {on} clients registered, expected {ref.registered()}")
+                return ("[F37] a client whose connection has ended is still registered in srv.clients — "
+                        f"`{op}`: online={on}, connections still attached: {ref.registered()}" if on > ref.registered() else
+                        f"fewer clients registered than connections attached — `{op}`: online={on}, expected {ref.registered()}")
         elif f[0] == "census":
             if not m:
                 return f"`{op}`: unreadable census `{raw}`"
             sv, rd, wr, hd, pl = (int(m.group(i)) for i in range(1, 6))
             a, r = ref.alive(), ref.registered()
             if (sv, rd, hd, pl) != (a, a, r, r) or wr > a:
-                return (f"`{op}`: goroutines serve={sv} read={rd} write={wr} handle={hd} poll={pl}, but {a} connection(s) are open and "
-                        f"{r} registered — goroutines of a connection that has ended are still there"
-                        + (" (the server did not close a connection whose CONNECT it refused / that timed out) [F38]" if sv > a and hd == r else ""))
+                tag = ("[F38] the server does not close a connection whose CONNECT it refused / that timed out: its goroutines stay"
+                       if sv > a and hd == r else "goroutines of a connection that has ended are still there")
+                return (f"{tag} — `{op}`: serve={sv} read={rd} write={wr} handle={hd} poll={pl}, but {a} connection(s) are open and "
+                        f"{r} registered")
         elif f[0] == "lstop":
             if not raw.startswith("stopped "):
-                return f"`{op}`: Stop did not return within its 3 s context ({raw.split()[0]}) — {_stuck_msg(raw)}"
+                return f"{_stuck_msg(raw)} — Stop did not return within its 3 s context ({raw.split()[0]}) after `{op}`"
             if "unload=1 onstop=1" not in raw:
-                return f"`{op}`: plugin Unload / OnStop did not run exactly once: {raw}"
+                return f"plugin Unload / OnStop did not run exactly once — `{op}`: {raw}"
             if not m or any(int(m.group(i)) for i in range(1, 6)):
-                return (f"`{op}`: Stop returned but goroutines of connections are left (peers still connected): "
-                        f"{m.group(0) if m else raw} — Stop only closes registered clients [F38]")
+                return ("[F38] Stop returned but goroutines of connections are left while their peers are still connected: Stop only "
+                        f"closes registered clients — `{op}`: {m.group(0) if m else raw}")
         for n in ref.must_close:
             if f[0] != "lstop" and "closed" not in evs.get(n, []):
-                return (f"`{op}`: the server has to end connection {n} here (refused CONNECT, DISCONNECT, protocol error, timeout or "
-                        "take-over) but did not close it [F38]")
+                return ("[F38] the server has to end a connection (refused CONNECT, DISCONNECT, protocol error, timeout or take-over) "
+                        f"but does not close the socket — `{op}`: connection {n}")
     return None
 
 def nontrivial(ops, out):
@@ -301,6 +307,9 @@ def nontrivial(ops, out):
 
 class LifecycleStream(core.Stream):
     """Go side: drive_broker (or its -race build); Lean side: oracle_lifecycle"""
+    def impl(self, cases):
+        # one process per case: a goroutine wedged by one script must not show up in the census of the next
+        return core.run_parallel([core.drive_exe(self.comp)] + self.drive_args, cases, chunk=1, timeout=self.timeout)
     def model(self, cases, impl_outs=None):
         return core.run_parallel([core.oracle_exe("lifecycle")] + self.oracle_args, cases, timeout=self.timeout)
 
@@ -322,7 +331,7 @@ def streams(tier):
 def _tag(tag):
     return lambda info: tag in (info.get("why") or "")
 
-RECOGNISERS = {"c15_f37": _tag("[F37]"), "c15_f38": _tag("[F38]"), "c15_f47": _tag("[F47]"),
+RECOGNISERS = {"c15_f37": _tag("[F37"), "c15_f38": _tag("[F38]"), "c15_f47": _tag("F47]"),
                "c15_lock_cycle": lambda info: info.get("kind") == "lockorder"}
 
 def _lock_cycle_report():
